@@ -240,6 +240,17 @@ Theorem inferred_range_inherits_domain_attributes :
   forall (A : Type) (d : A), range_attr None d = d /\ forall v : A, range_attr (Some v) d = v.
 Proof. intros A d; split; reflexivity. Qed.
 
+(* T1: an axis whose size is unchanged keeps its interval and cell side whatever offset is
+   given for it (scalar offset, or a per-axis offset for an axis that is not resized);
+   the `if affected[axis]` guard is part of the regenerated [num_lr]. *)
+Theorem unaffected_axis_keeps_interval : forall (a : @axis R) (off : option Z),
+  axis_valid a ->
+  let r := resize_axis a (a_n a) off (a_bl a) (a_br a) in
+  cell_side r = cell_side a /\ a_min r = a_min a /\ a_max r = a_max a /\
+  num_lr (a_n a) (a_n a) off = (0, 0)%Z.
+Proof. exact unaffected_axis. Qed.
+Print Assumptions unaffected_axis_keeps_interval.
+
 (* T1: without an explicit offset the size change is distributed evenly, with preference
    for the left in case of ambiguity (docstring of ResizingOperator). *)
 Theorem default_offset_even_prefers_left : forall n n_new : Z,
